@@ -1,9 +1,10 @@
 import SlipVerif.Model.JsonLisp
+import SlipVerif.Model.JsonConfig
 import SlipVerif.Driver.Util
 --! namespace: json
 /- line protocol for C18 (arguments are space separated tokens):
 
-   J    : n | T | F | i<dec> | d<float-token> | s<hex> | [ J* ] | { (k<hex> J)* }
+   J    : n | T | F | i<dec> | d<float-token> | s<hex> | m<hex time token> | [ J* ] | { (k<hex> J)* }
    path : (k<hex> | x<int> | * | ..)* ;
    L    : n | t | i<dec> | o<nat> | f<tok> | d<tok> | s<hex> | y<hex> | m<tok> | ( L* ) | . L
    G    : n | T | F | i<bits>:<dec> | u<bits>:<dec> | f<tok> | d<tok> | s<hex> | m<tok> | [ G* ] | { (k<hex> G)* }
@@ -15,6 +16,8 @@ import SlipVerif.Driver.Util
    json parse s<hex text>    reply: ok <J> | err <class>
    json parsemany s<hex>     reply: ok <J> ( | <J> )* | err <class>      (several documents in one text)
    json scan T|F <J>         reply: ok <path> <J> ( | <path> <J> )*      (T = leaves only)
+   json config (f<hex>|w<hex>)* ; <J>   reply: ok f<hex> w<hex> | <J>   (variables after the history of
+                             settings; the document as a parse entry point holds it then: m<hex> = time token)
    json native <J>           reply: ok <faithful T/F> <L> | ok <J> / err <class>
    json oflisp <L>           reply: ok <J> | err <class>
    json simple <G>           reply: ok <gfaithful T/F> <L> | <G>
@@ -32,6 +35,7 @@ def encJ : J → List String
   | .int i => [s!"i{i}"]
   | .flo t => ["d" ++ t]
   | .str s => ["s" ++ hexString s]
+  | .time t => ["m" ++ hexString t]
   | .arr xs => "[" :: (encJL xs ++ ["]"])
   | .obj kvs => "{" :: (encJM kvs ++ ["}"])
 def encJL : List J → List String
@@ -109,6 +113,7 @@ def decJ : Nat → List String → Option (J × List String)
       | 'i' => (body w).toInt?.map (fun i => (.int i, rest))
       | 'd' => some (.flo (body w), rest)
       | 's' => (unhexString? (body w)).map (fun s => (.str s, rest))
+      | 'm' => (unhexString? (body w)).map (fun s => (.time s, rest))
       | _ => none
 def decJL : Nat → List String → Option (List J × List String)
   | 0, _ => none
@@ -347,6 +352,25 @@ def handle (entry : String) (args : List String) : String :=
         "ok " ++ " | ".intercalate (items.map (fun pv => join (encPath pv.1) ++ " " ++ join (encJ pv.2)))
       | _ => "bad-request doc"
     | _ => "bad-request scan"
+  | "config" =>
+    -- json config (f<hex> | w<hex>)* ; <J>   : the history of settings, then a parse of the document
+    let rec ops : List String → Option (List CfgOp × List String)
+      | [] => none
+      | w :: rest =>
+        if w = ";" then some ([], rest)
+        else do
+          let v ← unhexString? (body w)
+          let op ← (if tag w = 'f' then some (CfgOp.format v) else if tag w = 'w' then some (CfgOp.wrap v) else none)
+          let (os, r) ← ops rest
+          some (op :: os, r)
+    match ops args with
+    | some (os, rest) =>
+      match decJ n rest with
+      | some (doc, []) =>
+        let c := runHistory os Cfg.init
+        "ok f" ++ hexString c.format ++ " w" ++ hexString c.wrap ++ " | " ++ join (encJ (convertDoc c.conv doc))
+      | _ => "bad-request doc"
+    | none => "bad-request config"
   | "native" =>
     match decJ n args with
     | some (doc, []) =>
